@@ -58,7 +58,9 @@ def rand_tags(rng, strings_only):
             elif r < 0.9:
                 t.append(rng.choice([1.5, 0.1, 1e20]))
             else:
-                t.append(rng.choice([["n"], [], ["a", ["b"]], {"k": "v"}]))
+                # objects keep their key order: the id is the hash of the serialisation the client made
+                t.append(rng.choice([["n"], [], ["a", ["b"]], {"k": "v"}, {"url": "u", "m": "image/png"}, {"b": 1, "a": {"z": 1, "y": [2]}},
+                                     [{"y": 1, "x": 2}]]))
         tags.append(t)
     return tags
 
@@ -148,7 +150,8 @@ def signed_event(rng, keys, mutate=None):
 
 
 def norm(x):
-    return json.loads(json.dumps(x))
+    """JSON-normalised (tuples = lists) and compared as text, so that the key order of objects inside tags counts"""
+    return json.dumps(json.loads(json.dumps(x)))
 
 
 def served_ok(accepted, served):
@@ -203,8 +206,8 @@ def store_case(report, rng, store, keys, app_client):
 
 
 def diff_fields(a, b):
-    a, b = norm(a), norm(b)
-    return ",".join(k for k in a if a.get(k) != b.get(k))
+    a, b = json.loads(json.dumps(a)), json.loads(json.dumps(b))
+    return ",".join(k for k in a if json.dumps(a.get(k)) != json.dumps(b.get(k)))
 
 
 def make_http(store):
